@@ -58,6 +58,16 @@ MUTANTS = [
     ("C11-duplicate-overwrites", "C11", "compiler.py", "                (prev_sym.ctx_start, prev_sym.ctx_end, \"A symbol with the same name has been already declared here\")\n            )\n            return\n\n        self.symbols[name] = (label, addr)", "                (prev_sym.ctx_start, prev_sym.ctx_end, \"A symbol with the same name has been already declared here\")\n            )\n\n        self.symbols[name] = (label, addr)", 1),
     ("C11-private-leak", "C11", "types.py", "        not_ready()\n        # TODO: check if there's a local symbol", "        for _k, (_ok, _v) in compiler.symbols.container.items():\n            if _k.endswith(\".\" + self.name.lower()):\n                return _v\n        not_ready()\n        # TODO: check if there's a local symbol", 1),
     ("C11-extern-key", "C11", "compiler.py", 'self.extern_symbols_mapping[name] = location, state["internal_symbol_prefix"] + name', 'self.extern_symbols_mapping[name] = location, name', 1),
+    ("C07-emit-inside-with", "C07", "_cli.py", "            base, code = comp.compile_and_link_files(parsed_files)\n\n\n        with reports.handle_reports(report_handler):\n            was_emitted, emitted_file = comp.emit_files(base, code)", "            base, code = comp.compile_and_link_files(parsed_files)\n            was_emitted, emitted_file = comp.emit_files(base, code)", 1),
+    ("C07-latch-needs-handler-result", "C07", "reports.py", "    handler(priority, identifier, *reports)\n\n    if priority in (error, critical):", "    shown = handler(priority, identifier, *reports)\n\n    if shown and priority in (error, critical):", 1),
+    ("C07-recoverable-swallowed", "C07", "reports.py", "                if exc_type is None or exc_type is RecoverableError:\n                    raise UnrecoverableError()", "                if exc_type is None:\n                    raise UnrecoverableError()", 1),
+    ("C07-filter-drops-errors", "C07", "reports.py", "        if priority is warning:\n            if identifier in self.warning_control:", "        if True:\n            if identifier in self.warning_control:", 1),
+    ("C19-lst-suffix", "C07", "_cli.py", "                    lst_file = lst_file.rpartition(\".\")[0]\n", "                    pass\n", 1),
+    ("C13-o-format-case", "C07", "_cli.py", "            if output_filename.lower().endswith(\".bin\"):", "            if output_filename.endswith(\".bin\"):", 1),
+    ("C07-io-error-ignored", "C07", "_cli.py", "                    print(f\"Could not write to '{output_file}':\\n{ex}\", file=sys.stderr)\n                    sys.exit(1)", "                    print(f\"Could not write to '{output_file}':\\n{ex}\", file=sys.stderr)", 1),
+    ("C19-sort-key", "C19", "compiler.py", "labels.sort(key=lambda item: (item[1], item[0]))", "labels.sort(key=lambda item: (item[0], item[1]))", 1),
+    ("C19-field-width", "C19", "compiler.py", ".rjust(6, \"0\")", ".rjust(5, \"0\")", 1),
+    ("C19-local-listed", "C19", "compiler.py", "            if name.startswith(\".internal\"):", "            if name.startswith(\".\"):", 1),
     # negative controls: semantically neutral edits, every check must stay green
     ("NEG-rename-local", "C06", "metacommand_impl.py", "    value = wait(arg_token.resolve(state))\n\n    if not isinstance(value, int):", "    value = wait(arg_token.resolve(state))\n    _unused = 1\n\n    if not isinstance(value, int):", 0),
     ("NEG-candidate-order", "C03", "types.py", "            state[\"local_symbol_prefix\"] + self.name,\n            state[\"internal_symbol_prefix\"] + self.name\n", "            state[\"internal_symbol_prefix\"] + self.name,\n            state[\"local_symbol_prefix\"] + self.name\n", 0),
